@@ -73,7 +73,7 @@ def tasks(tier, seed):
                 ts.append(dict(v, alpha=alpha, depth=depth, first=first,
                                name="%s/%s/f%d/s%d/c%d/%d" % (v["api"], alpha, v["fire"], v["skip"], v["cf"], first)))
         # the same configuration on a connection that went through the real connect() (options must survive it) and on a re-used object
-        for prelude in ("connected", "reused-midmessage", "created"):
+        for prelude in ("connected", "reused-midmessage", "created", "reused-eof-midmessage"):
             nfirst = len([s for s in alphabet(PAY_SMALL) if s[0] != R.CONT])
             for first in range(nfirst):
                 ts.append(dict(v, alpha="small", depth=2 if tier == "quick" else 4, first=first, prelude=prelude,
